@@ -79,7 +79,7 @@ def make_body(sk, info):
     spec += [('y%d' % i, 'bool', None) for i in range(NY)]
     for k in range(nargs):
         spec += [('m%d' % k, 'int', '0 <= m%d <= %d' % (k, NMODES - 1)), ('a%d' % k, 'int', None)]
-    spec += [('dyn', 'bool', None), ('dv', 'int', None), ('boom', 'int', '0 <= boom <= 3'), ('early', 'bool', None)]
+    spec += [('dyn', 'bool', None), ('dv', 'int', None), ('boom', 'int', '0 <= boom <= 3'), ('early', 'bool', None), ('prep', 'bool', None)]
     ix = ch.index_of(spec)
 
     def body(vals):
@@ -115,9 +115,16 @@ def make_body(sk, info):
         def q_fixed(a, b):
             enter()
             for r in Q_ROWS:
-                for _ in unify(a, r[0]):
-                    for _ in unify(b, r[1]):
-                        yield next_yield()
+                if g('prep'):
+                    # another legitimate way to write it: both unifications are created first and nested afterwards
+                    ga, gb = unify(a, r[0]), unify(b, r[1])
+                    for _ in ga:
+                        for _ in gb:
+                            yield next_yield()
+                else:
+                    for _ in unify(a, r[0]):
+                        for _ in unify(b, r[1]):
+                            yield next_yield()
 
         def q_var(*args):
             enter()
@@ -214,9 +221,9 @@ def units(tier, seed):
         nargs = len(sk['query'][1])
         masks = [(True, True), (True, False), (False, True)]
         if tier == 'quick':
-            parts = [{'boom': 0, 'pyp': pp, 'pyq': pq, 'early': False} for pp, pq in masks]
-            parts += [{'boom': 0, 'pyp': True, 'pyq': True, 'early': True, 'dyn': False}]
-            parts += [{'boom': b, 'stp': 0, 'stq': 2, 'early': False} for b in (1, 2)]
+            parts = [{'boom': 0, 'pyp': pp, 'pyq': pq, 'early': False, 'prep': (pq and not pp)} for pp, pq in masks]
+            parts += [{'boom': 0, 'pyp': True, 'pyq': True, 'early': True, 'dyn': False, 'prep': False}]
+            parts += [{'boom': b, 'stp': 0, 'stq': 2, 'early': False, 'prep': False} for b in (1, 2)]
         else:
             parts = [{'boom': b, 'pyp': pp, 'pyq': pq} for b in range(4) for pp, pq in masks]
         for fx in parts:
